@@ -8,7 +8,7 @@ from ..graph import Graph
 from ..expr import access_path, path_str, reaching_defs, norm_cond, origins, leaves, defs_in_node
 from ..linear import linear, relation, fmt, rel_str
 from ..symb import eval3
-from .common import strip_casts, short, comparison
+from .common import strip_casts, short, comparison, once_init, same_class_inline
 
 UNITS = []
 DRIVERS = ['nostd.cc']
@@ -41,12 +41,12 @@ def rule_r1(ck, prog, rule='C20.R1', cls='nostd::shared_ptr'):
         if f.kind in seen:
             continue
         seen.add(f.kind)
-        g = Graph(prog, f, inline=None, sync_lambdas=False)
+        g = Graph(prog, f, inline=same_class_inline(prog, f.cls), sync_lambdas=False, max_depth=2)   # (private helpers such as a shared release-and-adopt step are inlined)
         other = f.params[0]
         # effects on own state: destructor call of the wrapper / Reset / placement into buffer_
         own = [p for p in g.points if p.n is not None and p.n['k'] == 'call' and
                (strip_targs(p.n.get('c', '')).rsplit('::', 1)[-1].startswith('~') or strip_targs(p.n.get('c', '')).rsplit('::', 1)[-1] in ('Reset', 'reset')) and
-               p.n.get('obj') is not None and not any(f.nodes[i]['k'] == 'ref' for i in f.subtree(p.n['obj']))]
+               p.n.get('obj') is not None and not any(p.f.nodes[i]['k'] == 'ref' for i in p.f.subtree(p.n['obj']))]
         if not own:
             ck.inconclusive(rule, f, '%s:release-own-state' % f.kind, None, 'release of the own state not recognised')
             continue
@@ -57,6 +57,8 @@ def rule_r1(ck, prog, rule='C20.R1', cls='nostd::shared_ptr'):
             core, pol = norm_cond(lab[1], lab[0])
             c = comparison(lab[1], core)
             if not c or c[0] not in ('!=', '=='):
+                return False
+            if lab[1] is not f:
                 return False
             l, r = strip_casts(f, c[1]), strip_casts(f, c[2])
             sides = []
@@ -268,6 +270,61 @@ def rule_r3(ck, prog, rule='C20.R3'):
         sizes = sum(1 for n in c.nodes if n['k'] == 'call' and strip_targs(n.get('c', '')).endswith('string_view::size'))
         mins = [n for n in c.nodes if n['k'] == 'call' and strip_targs(n.get('c', '')) == 'std::min']
         ok = bool(mins) and len(conds) >= 2 and sizes >= 6
+        if not ok:
+            # the same decision written with early returns / named sizes: scenario table. With the prefix comparison pinned to
+            # "equal" and the comparisons of the two sizes pinned per scenario, the feasible return values are -1 / 0 / +1
+            from ..symb import explore_pinned
+            from ..symb import eval3 as _ev3
+            import operator
+            OPS = {'==': operator.eq, '!=': operator.ne, '<': operator.lt, '<=': operator.le, '>': operator.gt, '>=': operator.ge}
+            gc = Graph(prog, c, inline=None, sync_lambdas=False)
+
+            def kind(idx):
+                n = once_init(c, idx)
+                if n['k'] == 'call' and strip_targs(n.get('c', '')).rsplit('::', 1)[-1] in ('size', 'length'):
+                    return 'rhs' if (n.get('obj') is not None and strip_casts(c, n['obj']).get('id') == c.params[0]['id']) else 'lhs'
+                if n['k'] == 'member' and n.get('name') == 'length_':
+                    return 'rhs' if (n.get('base') is not None and strip_casts(c, n['base']).get('id') == c.params[0]['id']) else 'lhs'
+                if n['k'] == 'call' and strip_targs(n.get('c', '')).rsplit('::', 1)[-1] == 'compare':
+                    return 'prefix'
+                if 'v' in n:
+                    return ('lit', n['v'])
+                return None
+
+            def value(idx, env, pins, depth=0):
+                n = strip_casts(c, idx)
+                if 'v' in n and n['k'] == 'lit':
+                    return n['v']
+                if n['k'] == 'unop' and n['op'] == '-':
+                    v = value(n['e'], env, pins, depth + 1)
+                    return None if v is None else -v
+                if n['k'] == 'cond':
+                    t = _ev3(c, n['cnd'], env, pins)
+                    if t is None:
+                        return None
+                    return value(n['a'] if t else n['b'], env, pins, depth + 1)
+                if kind(idx) == 'prefix':
+                    return 0
+                return None
+            table = {}
+            for scen, (ls, rs) in (('lt', (1, 2)), ('eq', (2, 2)), ('gt', (3, 2))):
+                pins = {}
+                for n in c.nodes:
+                    cm = comparison(c, n['i'])
+                    if not cm:
+                        continue
+                    ka, kb = kind(cm[1]), kind(cm[2])
+                    vals = {'lhs': ls, 'rhs': rs, 'prefix': 0}
+                    va = vals.get(ka) if not isinstance(ka, tuple) else ka[1]
+                    vb = vals.get(kb) if not isinstance(kb, tuple) else kb[1]
+                    if va is not None and vb is not None and (ka in vals or kb in vals):
+                        pins[n['i']] = OPS[cm[0]](va, vb)
+                got = set()
+                for (ri, _v, env) in explore_pinned(gc, pins)[0]:
+                    got.add(value(c.nodes[ri]['e'], dict(env), pins) if ri is not None else None)
+                table[scen] = got
+            sign = lambda s_: {None if v is None else (v > 0) - (v < 0) for v in s_}
+            ok = sign(table['lt']) == {-1} and sign(table['eq']) == {0} and sign(table['gt']) == {1}
         ck.verdict(ok, rule, c, 'compare-orders-by-size-on-equal-prefix', conds[0] if conds else None, 'prefix of min(size) compared, then sizes' if ok else 'compare() does not order by size when the common prefix is equal')
         # the characters are ordered as unsigned bytes (what char_traits<char>::compare / memcmp do): a hand-written relational
         # comparison of two element reads must convert both to unsigned char first
@@ -320,6 +377,20 @@ def rule_r4(ck, prog, rule='C20.R4'):
     if mins:
         lv = [linear(g, rd, f, a, g.root_ctx) for a in mins[0]['args']]
         ok = {'this.length_': 1, 'param:pos': -1} in lv
+    if not ok:
+        # the clipping written as a conditional expression / through named locals: count = (n < size - pos ? n : size - pos)
+        from .c07 import _select_kind
+        for r in rets:
+            cons = [f.nodes[k] for k in f.subtree(r.n['e']) if f.nodes[k]['k'] == 'construct' and strip_targs(f.nodes[k].get('c', '')).endswith('string_view::string_view') and len(f.nodes[k].get('args', [])) == 2]
+            if not cons:
+                continue
+            cnt_e = once_init(f, cons[0]['args'][1])
+            kind_, ops_ = _select_kind(f, cnt_e['i']) if 'i' in cnt_e else (None, [])
+            if kind_ == 'min':
+                lv = [linear(g, rd, f, a, g.root_ctx) for a in ops_]
+                if {'this.length_': 1, 'param:pos': -1} in lv and {'param:' + f.params[1]['name']: 1} in lv:
+                    ok = True
+                    mins = [cnt_e]
     ck.verdict(ok, rule, f, 'substr-clips-count', mins[0] if mins else None, 'count = min(n, size - pos)' if ok else 'the count is not clipped with min(n, size - pos): the sub-view can run past the end')
     if rets:
         c = strip_casts(f, rets[0].n['e'])
